@@ -91,6 +91,7 @@ def run(t):
                        "non-trivial = more than one attempt or a cancellation / at least two GetKey calls")
     run.cov["exhaustive"] = True
     run.assumptions += ["per-attempt timeout 1 s; back-off checked only as a lower bound (0.95 x delay)",
+                        "the cache's base token in the replay honours a pinned key id (returns exactly that id or fails), as TokenCache.tla assumes and as azuretoken does; p11token ignores the pin (recorded as finding X04-p11-pinned-key-id-ignored) - the property's clause is about the cache, which never serves a pinned request from an entry with another id",
                         "'refused' = the harness's DialContext redirects that attempt to a port nobody listens on (genuine ECONNREFUSED)",
                         "retries < 1 is outside the property's quantifier (observation: negative retries returns (nil, nil))"]
     return run.finish()
